@@ -409,7 +409,7 @@ def fixture_notebooks():
 # ------------------------------------------------------------------ targeted three-way scenarios
 SCENARIOS = ['concurrent-insert', 'concurrent-insert', 'delete-vs-edit', 'same-line', 'different-lines', 'both-outputs', 'both-metadata',
              'insert-next-to-edit', 'delete-vs-transient', 'same-change', 'both-nbmeta', 'both-attachments', 'minor', 'replace-vs-transient', 'remove-output-vs-transient', 'dup-around-shared',
-             'replace-vs-insert', 'two-conflict-regions', 'output-mixed-keys', 'minor-down', 'remove-key-vs-transient', 'stale-conflict-record', 'meta-nested-mixed', 'same-inline-edit-plus-insert']
+             'replace-vs-insert', 'two-conflict-regions', 'output-mixed-keys', 'minor-down', 'remove-key-vs-transient', 'stale-conflict-record', 'meta-nested-mixed', 'same-inline-edit-plus-insert', 'exotic-text-both']
 
 
 def similar_cell(rng, c, used):
@@ -651,6 +651,25 @@ def triple_scenario(rng, minor=None, first=None):
                     a['cells'][i]['source'] = ''.join(both)
                     ins = rng.choice(['inserted = %d\n' % rng.randrange(99), '# a new first line\n'])
                     b_['cells'][i]['source'] = ''.join(lines[:k] + [ins, new] + lines[k + 1:]) if rng.random() < 0.7 else ''.join(both)
+        elif sc == 'exotic-text-both':
+            # both sides edit one text field whose base version holds a separator that only str.splitlines knows
+            # (progress bars write bare \r): the line-based string merge must split it the way the differ did
+            sep = rng.choice(['\r', '\x0b', '\x0c', '\x1c', '\x85', '\u2028'])
+            text = 'step 1 of 3' + sep + 'step 2 of 3' + sep + 'step 3 of 3\nelapsed 1.0s\nfinal line\n'
+            tl, tr = text.replace('1.0s', '1.2s'), text.replace('1.0s', '0.9s').replace('final line', 'final line!')
+            cands = [i for i in common if base['cells'][i]['cell_type'] == 'code']
+            where = rng.choice(['stream', 'metadata', 'source']) if cands else rng.choice(['metadata', 'source'])
+            if where == 'stream':
+                i = rng.choice(cands)
+                for nb, t in ((base, text), (l, tl), (r, tr)):
+                    nb['cells'][i]['outputs'] = [{'output_type': 'stream', 'name': 'stderr', 'text': t}]
+            elif where == 'metadata':
+                for nb, t in ((base, text), (l, tl), (r, tr)):
+                    nb['metadata']['note'] = t
+            else:
+                i = rng.choice(common)
+                for nb, t in ((base, text), (l, tl), (r, tr)):
+                    nb['cells'][i]['source'] = t
         elif sc == 'both-attachments':
             cands = [i for i in common if l['cells'][i]['cell_type'] != 'code']
             if cands:
@@ -761,6 +780,69 @@ def any_triple(rng, minor=None, minor_change=False):
 
 
 # ------------------------------------------------------------------ focused pairs for the differ
+
+STRING_BASES = ['empty', 'one-line-no-nl', 'one-line-nl', 'multi-no-nl', 'multi-nl']
+STRING_EDITS = ['append-lines', 'edit-first-end+append', 'edit-first-start+prepend', 'edit-last-end+append', 'prepend-lines', 'drop-last',
+                'drop-first+edit-second', 'toggle-final-nl', 'edit-middle', 'edit-first-end', 'edit-every-line']
+
+
+def string_shapes(rng, pool=None):
+    """systematic (label, a, b) string pairs: every base shape (empty / one line / several lines, with and without a final
+    newline) x every edit shape (in-line edits at the start / end of the first / last line next to line insertions,
+    removals, final-newline toggles). These are the shapes on which the line-level and the character-level entries of a
+    string diff meet at one position."""
+    pool = pool or CODE_LINES
+    out = []
+    for bs in STRING_BASES:
+        n = {'empty': 0, 'one-line-no-nl': 1, 'one-line-nl': 1}.get(bs, rng.choice([2, 3, 4]))
+        lines = [rng.choice([x for x in pool if x]) + (' # %d' % i if rng.random() < 0.5 else '') for i in range(n)]
+        final = bs.endswith('-nl') and not bs.endswith('no-nl')
+        a = '\n'.join(lines) + ('\n' if final and lines else '')
+        for ed in STRING_EDITS:
+            ls = list(lines)
+            fin = final
+            new = lambda: rng.choice([x for x in pool if x]) + ' # new%d' % rng.randrange(100)
+            if ed == 'append-lines':
+                ls += [new() for _ in range(rng.choice([1, 2]))]
+            elif ed == 'edit-first-end+append':
+                if ls:
+                    ls[0] += rng.choice([' as np', '2', ' + 1'])
+                ls += [new() for _ in range(rng.choice([1, 2]))]
+            elif ed == 'edit-first-start+prepend':
+                if ls:
+                    ls[0] = rng.choice(['>>> ', '# ', 'x']) + ls[0]
+                ls.insert(0, new())
+            elif ed == 'edit-last-end+append':
+                if ls:
+                    ls[-1] += rng.choice([';', ' + 2'])
+                ls.append(new())
+            elif ed == 'prepend-lines':
+                ls = [new() for _ in range(rng.choice([1, 2]))] + ls
+            elif ed == 'drop-last':
+                ls = ls[:-1]
+            elif ed == 'drop-first+edit-second':
+                ls = ls[1:]
+                if ls:
+                    ls[0] = ls[0][:len(ls[0]) // 2] + 'X' + ls[0][len(ls[0]) // 2:]
+            elif ed == 'toggle-final-nl':
+                fin = not fin
+            elif ed == 'edit-middle':
+                if ls:
+                    i = len(ls) // 2
+                    ls[i] = ls[i][:2] + '_mid_' + ls[i][2:]
+            elif ed == 'edit-first-end':
+                if ls:
+                    ls[0] += 'Z'
+            elif ed == 'edit-every-line':
+                ls = [x + '!' for x in ls]
+            if ed != 'toggle-final-nl' and rng.random() < 0.3:
+                fin = not fin
+            b = '\n'.join(ls) + ('\n' if fin and ls else '')
+            if a != b:
+                out.append((bs + '/' + ed, a, b))
+    return out
+
+
 FOCI = ['caps-mime-output', 'caps-mime-attachment', 'empty-data', 'json-mime-change', 'text-mime-lines', 'stream-seps', 'traceback', 'svg-change',
         'output-metadata', 'custom-json-mime', 'falsy-change', 'list-valued-insert']
 
